@@ -427,3 +427,28 @@ theorem pack_inj (t : Ty) (v v' : Val) (r r' : Bytes) (hv : wt t v = true) (hv' 
   exact ⟨rfl, rfl⟩
 
 end OpmVerif.Serial
+
+namespace OpmVerif.Serial
+
+/-! ### time_point travels as whole seconds -/
+
+theorem unpackTime_packTime (ms : Nat) (rest : Bytes) (h : ms / 1000 < 256 ^ 8) :
+    unpackTime (packTime ms ++ rest) = .ok (ms / 1000 * 1000, rest) := by
+  unfold unpackTime packTime timeToTimeT
+  rw [rdNat_le 8 _ rest h]
+  rfl
+
+/-- The time read back is the time packed iff it is a whole number of seconds. -/
+theorem time_roundtrip_iff (ms : Nat) (rest : Bytes) (h : ms / 1000 < 256 ^ 8) :
+    unpackTime (packTime ms ++ rest) = .ok (ms, rest) ↔ ms % 1000 = 0 := by
+  rw [unpackTime_packTime ms rest h]
+  constructor
+  · intro hh
+    have : ms / 1000 * 1000 = ms := by
+      injection hh with h1; injection h1
+    omega
+  · intro hh
+    have : ms / 1000 * 1000 = ms := by omega
+    rw [this]
+
+end OpmVerif.Serial
